@@ -50,6 +50,7 @@ def run_cases(res, case_iter, props, nontrivial, sample_every=50, coverage_props
             else:
                 res.skipped("UNEXPECTED " + run.exc_tag)
                 res.note("unexpected_exceptions", run.exc_tag)
+                res.note("unexpected_exception_cases", {"tag": run.exc_tag, "case": case})
             I = e2e.evaluate(run)      # what was recorded before the exception still counts
             _report(res, I, props, case, completed=False)
             continue
